@@ -108,13 +108,18 @@ class MiniFS:
         """byte offset of the primary descriptor of group g"""
         dpb = self.desc_per_block()
         blk_index = g // dpb
+        # the primary superblock lives at byte 1024: block 1 when blocks are 1 KiB (even when
+        # s_first_data_block is 0, as with bigalloc), block 0 otherwise
+        sb_blk = 1 if self.bs == 1024 else 0
         if self.has("meta_bg") and blk_index >= self.first_meta_bg:
             first_group = blk_index * dpb
             blk = self.first_data_block + first_group * self.bpg
             if self.group_has_super(first_group):
                 blk += 1
+            if first_group == 0 and self.bs == 1024 and self.first_data_block == 0:
+                blk += 1
         else:
-            blk = self.first_data_block + 1 + blk_index
+            blk = sb_blk + 1 + blk_index
         return blk * self.bs + (g % dpb) * self.desc_size
 
     def group_has_super(self, g):
@@ -214,6 +219,65 @@ class MiniFS:
                     tree.append(b)
         ok = lambda b: self.first_data_block <= b < self.blocks
         return [b for b in data if ok(b)], [b for b in tree if ok(b)]
+
+
+def file_blocks(fs, ino, maxblocks=1 << 20):
+    """[physical block or 0 (hole)] indexed by logical block, for inode `ino` (extent or indirect mapped).
+    Used to *locate* things (journal blocks, target blocks); no oracle depends on it alone."""
+    raw = fs.inode_raw(ino)
+    flags = int.from_bytes(raw[32:36], "little")
+    ib = raw[40:100]
+    size = int.from_bytes(raw[4:8], "little") | (int.from_bytes(raw[108:112], "little") << 32)
+    nblk = min((size + fs.bs - 1) // fs.bs, maxblocks)
+    out = [0] * nblk
+    d = fs.d
+
+    def walk_ext(node, depth_guard):
+        magic, entries, _mx, depth = struct.unpack_from("<HHHH", node, 0)
+        if magic != 0xF30A or depth_guard > 6:
+            return
+        for i in range(entries):
+            e = node[12 + 12 * i:24 + 12 * i]
+            if depth == 0:
+                lblk, ln, hi, lo = struct.unpack("<IHHI", e)
+                start = lo | (hi << 32)
+                ln = ln & 0x7FFF if ln > 32768 else ln
+                for k in range(ln):
+                    if lblk + k < nblk:
+                        out[lblk + k] = start + k
+            else:
+                _lblk, lo, hi, _u = struct.unpack("<IIHH", e)
+                blk = lo | (hi << 32)
+                walk_ext(d[blk * fs.bs:(blk + 1) * fs.bs], depth_guard + 1)
+
+    if flags & 0x80000:
+        walk_ext(ib, 0)
+        return out
+    per = fs.bs // 4
+
+    def ind(blk, level, base):
+        if not blk:
+            return
+        tbl = d[blk * fs.bs:(blk + 1) * fs.bs]
+        span = per ** (level - 1)
+        for i in range(per):
+            b = int.from_bytes(tbl[4 * i:4 * i + 4], "little")
+            if base + i * span >= nblk:
+                break
+            if level == 1:
+                if b:
+                    out[base + i] = b
+            else:
+                ind(b, level - 1, base + i * span)
+
+    for i in range(12):
+        b = int.from_bytes(ib[4 * i:4 * i + 4], "little")
+        if i < nblk:
+            out[i] = b
+    ind(int.from_bytes(ib[48:52], "little"), 1, 12)
+    ind(int.from_bytes(ib[52:56], "little"), 2, 12 + per)
+    ind(int.from_bytes(ib[56:60], "little"), 3, 12 + per + per * per)
+    return out
 
 
 # ----------------------------------------------------------------------------- fault generation
